@@ -199,7 +199,13 @@ def replay_reinforce(tuples, C, viol, samples):
     for mode in ("scale", "norm"):
         for kind in ("no", "shared"):
             hists = sorted(k[1] for k in table if k[0] == kind and len(k[1]) == maxlen)
-            for hist in hists[:: max(1, len(hists) // 40)]:
+            # the scalers are STATEFUL across training steps: chains of three histories fed to the same module one after the
+            # other (for these baseline-free / shared-baseline kinds the advantage of a step does not depend on earlier steps)
+            stride = max(1, len(hists) // 40)
+            chains = [[hists[i], hists[(i * 7 + 3) % len(hists)], hists[(i * 13 + 5) % len(hists)]] for i in range(0, len(hists), stride)]
+            for chain in chains:
+                steps = [h[: j + 1] for h in chain for j in range(len(h))]
+                hist = tuple(h[-1] for h in steps)
                 if kind == "no":
                     m = REINFORCE(env, pol, baseline=NoBaseline(), reward_scale=mode)
                 else:
@@ -208,7 +214,7 @@ def replay_reinforce(tuples, C, viol, samples):
                 seen = []
                 for j in range(len(hist)):
                     R, Lneg, X = hist[j]
-                    adv = [float(a) for a in table[(kind, hist[: j + 1])][0]]
+                    adv = [float(a) for a in table[(kind, steps[j])][0]]
                     seen += adv
                     reward = torch.tensor(R, dtype=torch.float32)
                     ll = torch.tensor([-float(x) for x in Lneg], requires_grad=True)
